@@ -67,6 +67,8 @@ def main(args) -> int:
         return sensitivity(args)
     if args.what == "models":
         return models(args)
+    if args.what == "simfs":
+        return simfs_fidelity(args)
     return stub(args)
 
 
@@ -216,3 +218,89 @@ def models(args) -> int:
                 bad += 1
     print("MODELS", "OK" if not bad else f"{bad} inconsistencies")
     return 0 if not bad else 1
+
+
+# ---------------------------------------------------------------------------------------------- seam fidelity
+
+def simfs_fidelity(args) -> int:
+    """Differential test of the filesystem seam against the real thing: the same tree (/, /sim, /sim/cwd, /sim/data,
+    one file in each of the last two) is built under a temporary root, the process moves to <root>/sim/cwd, and every
+    question the library asks (isdir, isfile, abspath of join(.., pardir), listdir, open for reading / writing,
+    basename, join) is put to both for a list of path spellings including the awkward ones ("", ".", "..", trailing
+    separators, missing parents, a file used as a directory). A seam that is kinder than the real system hides
+    faults (seeded change C18-m12 was invisible while isdir("") was answered "yes")."""
+    import shutil
+    import tempfile
+    from .simfs import SimFS
+    root = os.path.realpath(tempfile.mkdtemp(prefix="corsim-simfs-"))
+    old = os.getcwd()
+    bad = 0
+    n = 0
+    try:
+        for d in ("sim/cwd", "sim/data"):
+            os.makedirs(os.path.join(root, d))
+        for f in ("sim/cwd/here.txt", "sim/data/there.txt"):
+            with open(os.path.join(root, f), "w") as fh:
+                fh.write("[{1}]\n")
+        os.chdir(os.path.join(root, "sim/cwd"))
+        fs = SimFS()
+        fs.files["/sim/cwd/here.txt"] = "[{1}]\n"
+        fs.files["/sim/data/there.txt"] = "[{1}]\n"
+
+        def real_of(p):  # absolute simulated paths live under the temporary root
+            return root + p if p.startswith("/") else p
+
+        def strip(x):
+            if isinstance(x, str) and x.startswith(root):
+                return x[len(root):] or "/"
+            return x
+
+        def ask(fn):
+            try:
+                return ("ok", strip(fn()))
+            except OSError as e:
+                return ("err", type(e).__name__)
+
+        paths = ["", ".", "..", "./", "here.txt", "./here.txt", "new.txt", "./new.txt", "../data", "../data/",
+                 "../data/there.txt", "../data/new", "../nodir/new", "nodir/new", "here.txt/new", "here.txt/",
+                 "/sim/data/d1", "/sim/data", "/sim/data/", "/sim/nodir/x", "/", "../..", "a//b", "./.",
+                 "../cwd/here.txt", "/sim/cwd/../data/there.txt"]
+        for p in paths:
+            rp = real_of(p)
+            qs = [
+                ("isdir", lambda: fs.os.path.isdir(p), lambda: os.path.isdir(rp)),
+                ("isfile", lambda: fs.os.path.isfile(p), lambda: os.path.isfile(rp)),
+                ("parent-isdir", lambda: fs.os.path.isdir(fs.os.path.abspath(fs.os.path.join(p, fs.os.pardir))),
+                 lambda: os.path.isdir(os.path.abspath(os.path.join(rp, os.pardir)))),
+                ("abspath", lambda: fs.os.path.abspath(p), lambda: os.path.abspath(rp) if p else os.getcwd()),
+                ("basename", lambda: fs.os.path.basename(p), lambda: os.path.basename(rp)),
+                ("dirname-isdir", lambda: fs.os.path.isdir(fs.os.path.dirname(p)), lambda: os.path.isdir(os.path.dirname(rp))),
+                ("listdir", lambda: sorted(fs.os.listdir(p)), lambda: sorted(os.listdir(rp))),
+                ("open-r", lambda: fs.open(p, "r", encoding="utf-8").read(), lambda: open(rp, "r", encoding="utf-8").read()),
+            ]
+            for name, sim_q, real_q in qs:
+                a, b = ask(sim_q), ask(real_q)
+                n += 1
+                if a != b:
+                    bad += 1
+                    print(f"SIMFS-MISMATCH {name}({p!r}): simulated {a} real {b}")
+            # opening for writing creates the file: ask last, on both, then remove what was created
+            a = ask(lambda: fs.open(p, "w", encoding="utf-8").close())
+            b = ask(lambda: open(rp, "w", encoding="utf-8").close())
+            n += 1
+            if a[0] != b[0] or (a[0] == "err" and a[1] != b[1]):
+                bad += 1
+                print(f"SIMFS-MISMATCH open-w({p!r}): simulated {a} real {b}")
+            for q in ("new.txt", "../data/new", "../data/d1"):
+                if os.path.isfile(q):
+                    os.remove(q)
+                fs.files.pop(fs.norm(q), None)
+            for q, txt in (("here.txt", "[{1}]\n"), ("../data/there.txt", "[{1}]\n")):
+                with open(q, "w") as fh:
+                    fh.write(txt)
+                fs.files[fs.norm(q)] = txt
+    finally:
+        os.chdir(old)
+        shutil.rmtree(root, ignore_errors=True)
+    print(f"simfs fidelity: {n} questions on {len(paths)} path spellings, {bad} mismatches")
+    return 0 if bad == 0 else 2
